@@ -317,6 +317,23 @@ def fam_convert(ib):
                           [fn("f", R, [(S, "a")], [A(V(f"r{k}"), B(op, V("a"), L(n))) for k, (op, n) in enumerate(lits)] +
                               [["return", B("-", L(100), V("a"))]])],
                           globals=[(R, f"r{k}", None) for k in range(len(lits))]))
+            # power-of-two and unit literal operands (what a strength reduction would rewrite; seed C37/D)
+            lits2 = [("%", 8), ("%", 2), ("%", 1), ("%", 256), ("/", 4), ("/", 1), ("/", 128), ("*", 8), ("*", 1), ("*", 0),
+                     ("<<", 0), (">>", 0), ("&", 0), ("&", -1), ("|", 0), ("^", -1), ("%", -8), ("/", -4)]
+            P.append(prog(f"lit2-{S}", ["literal-operand", "div", "mod", "shift"],
+                          [fn("f", R, [(S, "a")], [A(V(f"r{k}"), B(op, V("a"), L(n))) for k, (op, n) in enumerate(lits2)] +
+                              [["return", B("%", L(1000), B("|", V("a"), L(1)))]])],
+                          globals=[(R, f"r{k}", None) for k in range(len(lits2))]))
+            # comparisons with literals in and out of the range of S, literal on either side (seed C37/C)
+            cl = [300, 256, 255, 0, -1, 128, 127, -128, -129, 511, 65535, 65536, 32768, -32769, 70000]
+            stm = []
+            for k, n in enumerate(cl):
+                op = CMPS[k % len(CMPS)]
+                stm.append(A(V(f"c{2 * k}"), C(op, V("a"), L(n))))
+                stm.append(A(V(f"c{2 * k + 1}"), C(CMPS[(k + 3) % len(CMPS)], L(n), V("a"))))
+            P.append(prog(f"litcmp-{S}", ["literal-operand", "cmp"],
+                          [fn("f", "bool", [(S, "a")], stm + [["return", C("==", V("a"), L(256))]])],
+                          globals=[("bool", f"c{k}", None) for k in range(2 * len(cl))]))
         # compound assignment: lvalue of type S, right-hand sides of every implicitly convertible type
         srcs = [T for T in TS if implicit_ok(T, S, ib)]
         for op in ASSIGN_OPS:
